@@ -27,6 +27,10 @@ Definition obligations : bool :=
   && forallb (fun n => existsb (fun x => String.eqb (fst (fst x)) n) views) required_views
   (* no call site keeps a TEMP_ATTR cache *)
   && forallb (fun site => match site_excl (snd (fst site)) with [] => true | _ => false end) clear_sites
+  (* no clear is skipped depending on `inplace`, and every re-initialisation of a neuron object (which resets the stored hash, so the
+     stale check cannot fire) is followed by an unconditional clear of that object *)
+  && match conditional_clears with [] => true | _ => false end
+  && forallb (fun s => snd s) reinit_sites
   (* pickling drops the graphs, copying a stale neuron clears, and the two library routines have the modelled shape *)
   && smem "_graph_nx" getstate_pops && smem "_igraph" getstate_pops
   && copy_clears_when_stale && temp_property_shape_ok && clear_shape_ok
@@ -52,14 +56,14 @@ Proof.
   destruct o as [|v|k| | |v| |]; simpl; try exact I.
   destruct (nth_error clear_sites k) as [site|] eqn:E; [|intros v []].
   assert (H := source_meets_obligations). unfold obligations in H. rewrite !andb_true_iff in H.
-  destruct H as [[[[[[[[_ _] H3] _] _] _] _] _] _]. rewrite forallb_forall in H3.
+  destruct H as [[[[[[[[[[_ _] H3] _] _] _] _] _] _] _] _]. rewrite forallb_forall in H3.
   specialize (H3 site (nth_error_In _ _ E)). destruct (site_excl (snd (fst site))); [intros v []|discriminate].
 Qed.
 
 Lemma view_ok_gen v : v < nviews -> view_ok gen_facts v.
 Proof.
   intros Hv. assert (H := source_meets_obligations). unfold obligations in H. rewrite !andb_true_iff in H.
-  destruct H as [[[[[[[[H1 _] _] _] _] _] _] _] _]. rewrite forallb_forall in H1.
+  destruct H as [[[[[[[[[[H1 _] _] _] _] _] _] _] _] _] _]. rewrite forallb_forall in H1.
   specialize (H1 v). rewrite in_seq in H1. specialize (H1 ltac:(lia)). apply andb_prop in H1. exact H1.
 Qed.
 
